@@ -92,7 +92,10 @@ Inductive accessor :=
 | AIterObs              (* consuming iter / iter_data / _iter_obs over observations *)
 | AIterSamp             (* ... over samples (also __iter__) *)
 | ACell                 (* t[i, j], get_value_by_ids *)
-| ARead.                (* matrix_data, shape, dtype, ids, metadata: no effect *)
+| ARead                 (* matrix_data, shape, dtype, ids, metadata, to_dataframe, metadata_to_dataframe: no effect *)
+| AToHdf5               (* to_hdf5: self.nnz, then self._data = asformat('csr'), then asformat('csc') *)
+| AToJson.              (* to_json: iter(axis='observation') for rows and data, then iter() for the columns *)
+(* to_tsv (delimited_self) walks _iter_obs, i.e. it is AIterObs *)
 
 Definition access (a : accessor) (s : state) : state :=
   match a with
@@ -103,6 +106,10 @@ Definition access (a : accessor) (s : state) : state :=
   | AIterSamp => if Nat.eqb (rep_cols (rep s)) 0 then s else with_rep s (r_tocsc (rep s))
   | ACell => s
   | ARead => s
+  | AToHdf5 => with_rep s (r_tocsc (r_tocsr (r_elim (rep s))))
+  | AToJson =>
+      let s1 := if Nat.eqb (rep_rows (rep s)) 0 then s else with_rep s (r_tocsr (rep s)) in
+      if Nat.eqb (rep_cols (rep s1)) 0 then s1 else with_rep s1 (r_tocsc (rep s1))
   end.
 
 (* what the nnz property returns *)
